@@ -20,6 +20,8 @@ def key_fn(case, obs, verdict):
         elif "invalid configuration" in verdict:
             what = "config-error"
         return "registry-settings:%s-%s-def%s:%s:%s" % (f[1], f[2], f[4], f[6], what)
+    if f[0] == "ftype":
+        return "registry-factory-forms:%s:%s-%s" % (f[1], f[2], f[3])
     if f[0] == "reg":
         return "registry-lookup:%s:%s" % (f[1], f[2])
     if f[0] == "hookn":
@@ -49,6 +51,7 @@ def run(ctx):
             "sec / reg cases: config sections of every form (string-keyed / untyped map / no map; each spelling of the type key absent, registered name, unknown name, non-string; a non-string key) through the real hooks, and Registry.New/NewFactory for an unregistered type or name; verdict section_ok_b / registered_b (C18_section_creation, C18_lookup_creation): wrong ones are the error result with nothing run",
             "conc cases: G goroutines released together create K products each (Registry.New / calls of one or of per-goroutine factories; through config.Decode + hooks and through a fresh plugin.Registry); the model Model/RegistryConc.v is replayed on the order of default invocations read off the observation, the verdict is conc_b (proved for every schedule: C18_concurrent_products); the driver keeps the model's function-valued state in arrays between steps",
             "set cases: the user's settings (keys of the section besides type: fields a, b, c and other keys) for every constructor shape (component / factory constructor; no config, Cfg by value / pointer, a config struct without fields by value / pointer; error result or not; default or not) and requested form (component, func() T, func() (T, error)) through core/register + the real hooks + config.Decode; model = run_case with the fill of parseConf (hook_oracle, Model/RegistryDecode.v), verdict = settings_accepted_b (a key that names no field of the constructor's config: error result, nothing constructed - C18_settings_rejected) / overlay (C18_settings_new_config, C18_settings_factory_config); the validator's verdict (max=1000 on field a) is computed by the driver",
+            "ftype cases: plugin.FactoryPluginType / Registry.LookupFactory / Registry.NewFactory for 17 Go types (both factory forms, named ones, wrong arity / result kinds, non-func, forms of the error interface and of an unregistered interface) x registered or not x name; model is_factory_type / new_factory_request, verdict from factory_form (C18_factory_forms, C18_factory_request); reg setdefault: plugin.SetDefaultRegistry then package-level Register/New, judged by spec_b as a plain case",
             "extraction: ExtrOcamlBasic only; OCaml driver ocaml/C18/main.ml (parses the harness's event lines into the model's datatypes) + ocaml/common/conv.ml",
             "nest cases: overlapping creations of the same registered entry (the fillConf lets another Registry.New of the same name run to completion, inline or in a second goroutine it waits for); verdict nest_b, proved of the model (C18_overlapping_creations)",
             "hook cases: core/register + pluginconfig.AddHooks + config.Decode (mapstructure) over the default registry; the verdict compares each product with the specification-side expected_arg (proved equal to the model: C18_new_config, C18_plugin_factory_config)",
